@@ -9,12 +9,6 @@ open Refparse
 let n_of_int i = n_of_z (Z.of_int i)
 let int_of_n x = Z.to_int (z_of_n x)
 
-(* validators of epoch 1, 2, ... under the scenario's sealing policy *)
-let vals_of_epochs (s : scn) (k : int) : (n * n) list array =
-  let a = Array.make (k + 2) s.vals in
-  for ep = 2 to k + 1 do a.(ep) <- next_vals s.pol a.(ep - 1) (n_of_int (ep - 1)) done;
-  a
-
 let policy (s : scn) (va : (n * n) list array) : ((n * n) * (n * n) list) list =
   if int_of_n s.seal = 0 then [] else
   List.init (Array.length va - 2) (fun i -> ((n_of_int (i + 1), s.seal), va.(i + 2)))
@@ -39,11 +33,13 @@ let run_model (s : scn) (ops : op list) : obs0 list =
 
 let code_of (r : err option) = match r with None -> 0 | Some EWrongFrame -> 1 | Some _ -> 9
 
-let block_toks ep (bl : block list) : string list =
+let block_toks (af : int) (nblk : int ref) ep (bl : block list) : string list =
   List.concat (List.map (fun b ->
+    let dt = deliv_tok af !nblk b.b_delivered in
+    incr nblk;
     ["B"; string_of_int ep; tok_of_n b.b_frame; tok_of_n b.b_atropos;
      (match b.b_seal with Some _ -> "1" | None -> "0"); string_of_int (List.length b.b_cheaters)]
-    @ List.map tok_of_n b.b_cheaters) bl)
+    @ List.map tok_of_n b.b_cheaters @ [dt]) bl)
 
 (* C10: Build + Process per event, creation order *)
 let c10_tokens (s : scn) : string list =
@@ -53,14 +49,14 @@ let c10_tokens (s : scn) : string list =
   let evs = List.map (to_aevent va lam) (flat s) in
   let ops = List.concat (List.map (fun e -> [OpB e; OpP e]) evs) in
   let obs = run_model s ops in
-  let ep = ref 1 and ldf = ref "0" in
+  let ep = ref 1 and ldf = ref "0" and nblk = ref 0 in
   let rec go (os : obs0 list) acc blocks =
     match os with
     | ObsSkip w :: ObsSkip _ :: r -> go r ((if int_of_n w = 2 then "skip" else "b0:p2") :: acc) blocks
     | ObsB b :: ObsP (r, bl, l, e) :: rest ->
       let f = (match b with Ok f -> tok_of_n f | Err _ -> "0") in
       let c = code_of r in
-      let bt = block_toks !ep bl in
+      let bt = block_toks s.af nblk !ep bl in
       ep := int_of_n e; ldf := tok_of_n l;
       let acc = ("b" ^ f ^ ":p" ^ string_of_int c) :: acc in
       if c = 9 then (List.rev ("CRIT" :: acc), List.rev (bt :: blocks)) else go rest acc (bt :: blocks)
@@ -80,12 +76,12 @@ let c01_tokens (s : scn) (tag : string) (order : int list) : string list =
   let aev = Array.map (to_aevent va lam) fl in
   let ops = List.map (fun i -> OpP aev.(i)) order in
   let obs = run_model s ops in
-  let ep = ref 1 and ldf = ref "0" and rej = ref 0 and bls = ref [] in
+  let ep = ref 1 and ldf = ref "0" and rej = ref 0 and bls = ref [] and nblk = ref 0 in
   List.iter (fun o -> match o with
     | ObsSkip w -> if int_of_n w <> 2 then incr rej
     | ObsP (r, bl, l, e) ->
       if r <> None then incr rej;
-      bls := block_toks !ep bl :: !bls; ep := int_of_n e; ldf := tok_of_n l
+      bls := block_toks s.af nblk !ep bl :: !bls; ep := int_of_n e; ldf := tok_of_n l
     | _ -> ()) obs;
   [tag; string_of_int !rej] @ List.concat (List.rev !bls) @ ["L"; string_of_int !ep; !ldf]
 
